@@ -1,5 +1,39 @@
 """check.py configuration of C15 (encoding is total)."""
 
+# section M of Theorems/C15.lean (branch wM): the slicing / index arithmetic of the encoder loops
+M_CLAIM = (
+    "(6) the LOOP CODE of every encoder family does not panic: trapping mirrors (TrapEnc.lean, TrapEncBlk.lean, "
+    "TrapEncSplit.lean - the loops written once more with Option-valued operators, none = panic in the checked "
+    "profile: slice range, copy_from_slice of unequal lengths, chunks(0), split_at, expect, assert!/debug_assert!, "
+    "usize/u32 overflow, division by zero, Vec capacity overflow) of for_each_chunk (contiguous and strided), "
+    "copy_directly, uncompressed_untyped + simple_color_convert / BGR lines, uncompressed_universal, "
+    "uncompressed_universal_dither (both error rows), uncompressed_universal_subsample + process_subsample (partial "
+    "last block), for_each_f32_rgba_rows, bi_planar_universal (2x2 cells, plane buffers, progress divisor), "
+    "block_universal + get_4x4_* (edge padding), SplitView::new/get, ImageView::is_contiguous/rows/cropped, "
+    "encode_parallel (fragment buffers sized by surface_bytes) and EncoderSet::encode (pick_encoder expect, "
+    "Encoder::encode assert) return `some` of exactly the write sizes of EncLen.lean (C10) - for EVERY view the "
+    "public API can build (C20's invariant: w, h < 2^32 incl. 0x0, 1x1 and sizes not divisible by the block size; "
+    "contiguous or strided with ANY pitch >= row bytes, e.g. isize::MAX for one row), all 12 input colours, all 57 "
+    "encodable formats x 4 dithering options through C19's pinned encoder table (complete evaluation of "
+    "pick_encoder), every quality, either alignment of RGBA-F32 input; the progress fraction never exceeds 1 "
+    "(ProgressRange::project's debug_assert), every inner while loop terminates, and for every writer failing after "
+    "k bytes Err(Io) iff k < surface_bytes (theorems chunk_loops_trapfree, dither_loop_trapfree, "
+    "subsample_loop_trapfree, biplanar_loop_trapfree, block_rows_trapfree, split_view_trapfree, "
+    "parallel_fragments_trapfree, encode_loops_trapfree). Buffer sizes and report cadences are read from the source "
+    "on every run (SrcConsts.lean): a retuned buffer re-proves the theorems, an unsafe one (a staging buffer below "
+    "one pixel, a block buffer below BUFFER_PIXELS / 2) fails loop_constants_ok. The mutated loops of seeds C15g / "
+    "C12i / C10g, transcribed as variants, are `none` resp. differ from EncLen.lean (examples). "
+)
+M_NOTE = (
+    " Section M additionally trusts: that the mirrors TrapEnc*.lean transcribe the loops (file:line cited; every "
+    "operation that can panic is an Option operator) and Body.Matches (which loop an encoder of C19's table runs, "
+    "read off the encoder lists); the views satisfy C20's invariant (proved for new / new_with / cropped in C20), a "
+    "slice has at most isize::MAX bytes; the per-pixel / per-block functions are total (the quantiser theorems; the "
+    "sampled float bodies); the progress assertion is stated on the integers (index <= count, count != 0) - that the "
+    "f32 quotient of two monotonically rounded integers a <= b is <= 1.0 is a fact about IEEE division; allocation "
+    "FAILURE (abort, not a panic) of the row-group buffers 16 * w * block_height bytes is outside the model."
+)
+
 CFG = {
     "claim": "Partial. PROVED about the model (EncTotal.lean), for all sizes, writer loops, fault offsets and all "
              "extended-real inputs: (1) size rule - over the table of all 73 formats the encoder refuses exactly the "
@@ -29,8 +63,9 @@ CFG = {
              "R16G16B16A16_SNORM encode every pixel to exactly the 16-bit field packing; (4) the only data-dependent loop of the block encoders (bcn_util::refine_endpoints) runs at "
              "most max_iter <= 10 times at every quality, whatever the float comparison does; (5) empty images give "
              "Ok and zero bytes in every family (incl. the repaired bi-planar path) even with a writer that accepts "
-             "nothing. EXPLORED, not proved: panic- and hang-freedom of the float bodies of the BC1/BC4/BC7 block "
-             "encoders, the dithering and the pixel readers - dds::encode and Encoder::write_surface run under "
+             "nothing. " + M_CLAIM +
+             "EXPLORED, not proved: panic- and hang-freedom of the float bodies of the BC1/BC4/BC7 block "
+             "encoders, the float arithmetic of the error diffusion and the pixel readers - dds::encode and Encoder::write_surface run under "
              "catch_unwind + a 20 s watchdog in both build profiles over 73 formats x sizes 0..40 x NaN/inf/huge/"
              "subnormal/negative/random-bit content x 12 colours x quality x dithering x metric x parallel x "
              "writer fault offsets.",
@@ -45,7 +80,7 @@ CFG = {
             "bit-level theorems that the compiled code evaluates f32 `*`, `+`, `min`, `max`, `as uN`, `as f64` and f64 "
             "`*`, `+`, `as u16` as IEEE-754 binary32 / binary64 operations (ConvF32.lean, ConvF64.lean; no FMA "
             "contraction, no flush-to-zero, no excess precision), which the S/U/W cases compare on bit patterns; "
-            "std's write_all contract.",
+            "std's write_all contract." + M_NOTE,
     "profiles": ["release", "checked"],
     "level": "proof",
     "explanation": "level=proof refers to the modelled part (size rule, writer faults, quantiser ranges, loop bounds, "
